@@ -201,6 +201,30 @@ def extract(tree_root):
         out["stripe_sort_table"] = ds[0]
     else:
         miss("stripe/assembler.py: str-keyed dict (%d found)" % len(ds))
+    # numeric constants: cubepart.Z_975 and the default alpha of the legacy pairwise constructors
+    cp = _parse(os.path.join(src, "cubepart.py"))
+    z = [n.value.value for n in cp.body if isinstance(n, ast.Assign) and len(n.targets) == 1
+         and isinstance(n.targets[0], ast.Name) and n.targets[0].id == "Z_975"
+         and isinstance(n.value, ast.Constant) and isinstance(n.value.value, float)]
+    if len(z) == 1:
+        out["z_975"] = repr(z[0])
+    else:
+        miss("cubepart.py: Z_975 float constant")
+    pw = _parse(os.path.join(src, "measures", "pairwise_significance.py"))
+    alphas = set()
+    for c in pw.body:
+        if isinstance(c, ast.ClassDef):
+            for f in c.body:
+                if isinstance(f, ast.FunctionDef) and f.name == "__init__":
+                    names = [a.arg for a in f.args.args]
+                    defs = dict(zip(names[len(names) - len(f.args.defaults):], f.args.defaults))
+                    d = defs.get("alpha")
+                    if isinstance(d, ast.Constant) and isinstance(d.value, float):
+                        alphas.add(repr(d.value))
+    if len(alphas) == 1:
+        out["legacy_default_alpha"] = alphas.pop()
+    else:
+        miss("measures/pairwise_significance.py: default alpha (%d distinct)" % len(alphas))
     cm = _parse(os.path.join(src, "matrix", "cubemeasure.py"))
     pd = pair_dispatch(cm)
     if pd:
@@ -230,6 +254,9 @@ PRELUDE = """-- GENERATED by tools/srctables.py from the working tree of crunch-
 import CrCube.Model.Collator
 import CrCube.Model.Glue
 import CrCube.Spec.Order
+import CrCube.Model.Variance
+import CrCube.Model.Population
+import CrCube.Model.PairwiseLegacy
 
 namespace CrCube.SourceTables
 
@@ -345,6 +372,21 @@ def render(t):
                    "    (srcCountsDispatch.lookup (a, b)).getD %s = \"_\" ++ cap a ++ \"X\" ++ cap b ++ \"CubeCounts\" := by decide\n\n"
                    % _s(cd["default"]))
         thms.append("counts_dispatch")
+    def dec(txt):
+        """decimal literal text -> exact 'num / den' (the value python's float literal denotes to the printed precision)"""
+        from fractions import Fraction
+        fr = Fraction(txt)
+        return "(%d : Rat) / %d" % (fr.numerator, fr.denominator)
+    if "z_975" in t:
+        out.append("/-- `cubepart.Z_975` (decimal literal %s) is the constant of the margin-of-error models -/\n"
+                   "theorem z975_constant : CrCube.Z975 = %s ∧ CrCube.Population.Z975 = %s := by\n"
+                   "  constructor <;> decide +kernel\n\n" % (t["z_975"], dec(t["z_975"]), dec(t["z_975"])))
+        thms.append("z975_constant")
+    if "legacy_default_alpha" in t:
+        out.append("/-- default alpha of the legacy pairwise constructors -/\n"
+                   "theorem legacy_default_alpha : CrCube.PairwiseLegacy.defaultAlpha = %s := by decide +kernel\n\n"
+                   % dec(t["legacy_default_alpha"]))
+        thms.append("legacy_default_alpha")
     out.append("end CrCube.SourceTables\n\n")
     for th in thms:
         out.append("#print axioms CrCube.SourceTables.%s\n" % th)
